@@ -68,11 +68,12 @@ func main() {
 		{path: "cmds/server/loader/json/json.go", chans: true},
 		// statement-level scheduling points where requests of different connections touch shared policy data
 		{path: "cmds/server/config/types.go", points: []string{"TrimSpace"}},
-		{path: "cmds/server/config/authorizers/stringy/command.go", points: []string{"evaluate"}},
-		{path: "cmds/server/config/authorizers/stringy/session.go", points: []string{"evaluate", "serviceMatcherModifier", "serviceMatcher"}},
+		{path: "cmds/server/config/authorizers/stringy/command.go", points: []string{"*"}},
+		{path: "cmds/server/config/authorizers/stringy/session.go", points: []string{"*"}},
 	}
-	// any other in-scope file that imports sync or starts goroutines must be listed above
-	checkScope(*repo, specs)
+	// every other in-scope file: sync imports and go statements are rewritten automatically; channel operations
+	// outside the loader files are not supported (the instrumenter fails loudly)
+	specs = append(specs, autoSpecs(*repo, specs)...)
 	for _, sp := range specs {
 		if err := rewrite(filepath.Join(*repo, sp.path), sp); err != nil {
 			fail(sp.path + ": " + err.Error())
@@ -86,15 +87,33 @@ func fail(msg string) {
 	os.Exit(2)
 }
 
-// checkScope makes sure no in-scope source file uses sync, go statements or channels outside the listed files.
-func checkScope(repo string, specs []fileSpec) {
+// pointFiles get statement-level scheduling points in all their functions: handler code of different connections
+// touches shared policy/sink data without passing through a synchronisation operation, and the race detector treats
+// the metric atomics in between as synchronisation.
+var pointFiles = map[string]bool{
+	"handlers.go":                                       true,
+	"cmds/server/handlers/acct.go":                      true,
+	"cmds/server/handlers/author.go":                    true,
+	"cmds/server/handlers/authen.go":                    true,
+	"cmds/server/handlers/authen_ascii.go":              true,
+	"cmds/server/handlers/authen_pap.go":                true,
+	"cmds/server/handlers/response_logger.go":           true,
+	"cmds/server/config/aaa.go":                         true,
+	"cmds/server/config/accounters/local/local.go":      true,
+	"cmds/server/config/authenticators/shared.go":       true,
+	"cmds/server/config/authorizers/stringy/stringy.go": true,
+}
+
+// autoSpecs scans the in-scope files that are not listed explicitly.
+func autoSpecs(repo string, specs []fileSpec) []fileSpec {
 	listed := map[string]bool{}
 	for _, s := range specs {
 		listed[s.path] = true
 	}
 	skipDirs := []string{"cmds/client", "cmds/server/test", "cmds/server/loader/fsnotify", "cmds/server/config/secret/dns", "cmds/server/config/accounters/syslog",
 		"cmds/server/exporter", "cmds/server/config/authenticators/bcrypt/generator", "vsyncrt", "proxy"}
-	skipFiles := map[string]bool{"cmds/server/main.go": true, "cmds/server/support.go": true, "cmds/server/handlers/span.go": true, "client.go": true}
+	skipFiles := map[string]bool{"cmds/server/main.go": true, "cmds/server/support.go": true, "cmds/server/handlers/span.go": true, "client.go": true, "zz_verif_export.go": true}
+	var out []fileSpec
 	filepath.Walk(repo, func(p string, info os.FileInfo, err error) error {
 		if err != nil || info.IsDir() || !strings.HasSuffix(p, ".go") || strings.HasSuffix(p, "_test.go") {
 			return nil
@@ -113,27 +132,32 @@ func checkScope(repo string, specs []fileSpec) {
 		if err != nil {
 			fail(rel + ": " + err.Error())
 		}
+		sp := fileSpec{path: rel}
 		for _, im := range f.Imports {
-			if im.Path.Value == `"sync"` || im.Path.Value == `"sync/atomic"` {
-				// sync/atomic needs no modelling; plain sync does
-				if im.Path.Value == `"sync"` {
-					fail(rel + " imports sync but is not in the instrumenter's file list")
-				}
+			if im.Path.Value == `"sync"` {
+				sp.sync = true
 			}
 		}
 		ast.Inspect(f, func(n ast.Node) bool {
 			switch n.(type) {
 			case *ast.GoStmt:
-				fail(rel + " has a go statement but is not in the instrumenter's file list")
-			case *ast.SelectStmt:
-				fail(rel + " has a select statement but is not in the instrumenter's file list")
+				sp.gostmt = true
 			case *ast.SendStmt:
-				fail(rel + " has a channel send but is not in the instrumenter's file list")
+				fail(rel + " has a channel send but is not one of the files rewritten for channels")
+			case *ast.SelectStmt:
+				fail(rel + " has a select statement but is not one of the files rewritten for channels")
 			}
 			return true
 		})
+		if pointFiles[rel] {
+			sp.points = []string{"*"}
+		}
+		if sp.sync || sp.gostmt || len(sp.points) > 0 {
+			out = append(out, sp)
+		}
 		return nil
 	})
+	return out
 }
 
 type rewriter struct {
@@ -190,7 +214,7 @@ func rewrite(path string, sp fileSpec) error {
 			if dd.Body != nil {
 				pts := false
 				for _, n := range sp.points {
-					if dd.Name.Name == n {
+					if dd.Name.Name == n || n == "*" {
 						pts = true
 					}
 				}
